@@ -35,7 +35,10 @@ def run(c):
     use = gen if not thorough else rng.sample(gen, min(len(gen), 40000))
     for g in use:
         t = TBL[g["m"]]
-        if t["family"] == "ENV": continue
+        if t["family"] == "ENV":          # the envelope's own decoder is reachable by direct call only
+            cases.append(dict(k="pured", entry="body", m=g["m"], inp=g["inp"]))
+            cases.append(dict(k="pured", entry="body", m=g["m"], inp=g["inp"] + [0x7E, 0x00, 0x43, 0x11, 0x22]))
+            continue
         cases.append(dict(k="pured", entry="plain", inp=g["inp"]))
         if rng.random() < 0.3:
             cases.append(dict(k="pured", entry="gmm" if t["family"] == "GMM" else "gsm", inp=g["inp"]))
@@ -43,6 +46,11 @@ def run(c):
         if rng.random() < (0.25 if not thorough else 0.1):
             for v in hdr_variants(g["m"], g["inp"]):
                 cases.append(dict(k="pured", entry="plain", inp=v))
+    for m, (b0, singles) in sorted(singles_by_message(gen).items()):   # an unknown identifier, THEN known elements (every message)
+        u = unknown_octet(m)
+        for e in sorted(singles, key=len)[:3] + sorted(singles, key=len)[-1:]:
+            cases.append(dict(k="pured", entry="plain", inp=b0 + [u] + e))
+            cases.append(dict(k="pured", entry="plain", inp=b0 + e + [u, u] + e))
     accd = [g for g in use if g["ok"] and TBL[g["m"]]["family"] != "ENV"]
     for g in rng.sample(accd, min(len(accd), 300 if not thorough else 3000)):      # the same messages inside a security-protected envelope
         for sht in (1, 2, 3, 4):
@@ -57,6 +65,15 @@ def run(c):
     for m, w in wants:
         bym.setdefault(m, []).append(w)
         cases.append(dict(k="puree", m=m, mand=w["mand"], opt=w["opt"], pre=rng.choice([0, 1, 17])))
+        # array-backed elements holding octets of a longer, earlier value behind their present length: encoding reads the
+        # first Len octets and leaves the rest of the caller's object alone
+        t_ = TBL[m]; stale = json.loads(json.dumps(w)); touched = False
+        for kind, slots in (("mand", [x for x in t_["slots"] if x["mand"]]), ("opt", [x for x in t_["slots"] if not x["mand"]])):
+            for k, s_ in enumerate(slots):
+                v = stale[kind][k]
+                if v["p"] and s_["data"] == "arr" and s_["lsz"] > 0 and v["len"] < len(v["v"]):
+                    v["v"] = v["v"][:v["len"]] + [0xEE - i for i in range(len(v["v"]) - v["len"])]; touched = True
+        if touched: cases.append(dict(k="puree", m=m, mand=stale["mand"], opt=stale["opt"], pre=rng.choice([0, 3])))
         if rng.random() < 0.15:         # the same message assembled by hand: the outer header view carries the message type only
             cases.append(dict(k="puree", m=m, mand=w["mand"], opt=w["opt"], pre=rng.choice([0, 5]), hz=True))
         c.count_distinct(("e", m, json.dumps(w, sort_keys=True)))
